@@ -510,7 +510,8 @@ def decide(prop, spec, tier, seed, workdir, t0, args):
         wall_s=round(wall, 2),
         violations=len(violations),
     )
-    if not os.environ.get('VERIF_NO_EVIDENCE'):
+    # development runs (a scratch repo, or one back end only) never overwrite the evidence of a complete run
+    if not os.environ.get('VERIF_NO_EVIDENCE') and not os.environ.get('VERIF_ONLY'):
         os.makedirs(os.path.join(VERIF, 'evidence'), exist_ok=True)
         json.dump(ev, open(os.path.join(VERIF, 'evidence', prop + '.json'), 'w'), indent=1)
     # ---- verdict
